@@ -287,6 +287,10 @@ def _check_matrix(case, ctx):
                 mol.set_transition_width((0, 1), abs(v) + 1.0)
             cmp("stored-value", mol.widths[0, 1], orc.to_internal(abs(v) + 1.0, u1))
             cmp("stored-value", mol.widths[1, 0], orc.to_internal(abs(v) + 1.0, u1))
+            # ... and read back through the getter under the second units
+            with qr.energy_units(u2):
+                got = mol.get_transition_width((0, 1))
+            cmp("getter", got, expect(abs(v) + 1.0))
         elif acc == "diabatic_coupling":
             mol = qr.Molecule([0.0, 1.0, 1.2])
             mol.add_Mode(qr.Mode(0.01))
